@@ -51,7 +51,7 @@ UNITS.append(dict(
                        inv=nz_search(1), dec='V_n - ' + PC)})},
     harness='void h_mpz_scan0 (void) {\n' + OBJ + '  mp_bitcnt_t sb = nondet_ulong (); gb = nondet_ulong ();\n  __gmpz_scan0 (&U, sb);\n}', timeout=900,
     selftest=[('__gmpz_scan0', r'limb--;', ';'), ('__gmpz_scan0', r'return \(mp_bitcnt_t\) abs_size \* \(64 - 0\);', 'return (mp_bitcnt_t) abs_size * (64 - 0) - 1;'),
-              ('__gmpz_scan0', r'while \(q != u_ptr\)', 'if (q != u_ptr)')]))
+              ('__gmpz_scan0', r'if \(\*q != 0\)', 'if (*q == 0)')]))
 
 POS_NZ = ('''(V_s < PC && PC < V_n && __CPROVER_same_object (p, u_ptr) && V_n == abs_size && V_s == starting_limb && size >= 0 && u_ptr == u->_mp_d && u_end == u_ptr + V_n
         && u_ptr[V_n - 1] != 0 && ((starting_bit <= gb && gb / 64 < (mp_bitcnt_t) PC) ==> V_TCBIT (u, gb) == 0))''').replace('PC', PC)
